@@ -1,7 +1,7 @@
 (* C04 - Chunk-removal strategies only ever delete reducible atoms. *)
 From Coq Require Import ZArith NArith List Bool.
 From Lithium Require Import PyBase TcRecord Util Testcase Spec Driver TraceSpec Minimize StratSpec
-  MinimizeProofs.
+  MinimizeProofs Pairs PairsProofs.
 Import ListNotations.
 Open Scope Z_scope.
 
@@ -26,6 +26,21 @@ Theorem C04_minimize :
     tests_are_deletions tc0 (chron w) /\ exists t, sub_reducible tc0 t /\ w_file w = content t.
 Proof. exact minimize_only_deletes. Qed.
 
+(* minimize-around and minimize-balanced (experimental move off) are deleting strategies too *)
+Theorem C04_pairs_deleting :
+  forall kind cfg clk tc0, 1 <= c_max cfg ->
+    exists I, I (pstart cfg clk tc0) tc0 /\ deleting (pairs kind cfg clk) I.
+Proof. exact pairs_is_deleting. Qed.
+
+Theorem C04_pairs :
+  forall kind cfg clk verdict fuel tc0 file0,
+    wf tc0 -> content tc0 = file0 -> 1 <= c_max cfg ->
+    let w := result_world (run (pairs kind cfg clk) verdict fuel tc0 file0) in
+    tests_are_deletions tc0 (chron w) /\ exists t, sub_reducible tc0 t /\ w_file w = content t.
+Proof. exact pairs_only_deletes. Qed.
+
 Print Assumptions C04_generic.
+Print Assumptions C04_pairs_deleting.
+Print Assumptions C04_pairs.
 Print Assumptions C04_minimize_deleting.
 Print Assumptions C04_minimize.
